@@ -706,6 +706,20 @@ def x_prune(w, s, st, info):
             except Exception:
                 pass
     info['marked'] = marked
+    # not exercised (counted): marked services that are owned by a node/component and have connected ports, or that
+    # peer with another service - prune() removes those with the plain graph-level call
+    for m in marked:
+        if st.cls(m) == 'NetworkService':
+            ports = st.cps_of_service(m)
+            if st.owner_of_service(m) and any(st.links_of_cp(c) or any(st.links_of_cp(k) for k in st.child_cps(c))
+                                              for c in ports):
+                w.stats.inc('probe.prune.skipped_owned_service_with_connections')
+                raise SkipStep()
+            if any(st.typ(p) == 'ServicePort' for c in ports for p in st.peers(c)):
+                w.stats.inc('probe.prune.skipped_peered_service')
+                raise SkipStep()
+        if st.cls(m) == 'NetworkNode' and st.typ(m) == 'Facility':
+            w.stats.inc('probe.prune.facility_marked')
     info['predict'] = predict_prune(st, marked)
     w.topo.prune(reservation_state=s['state'])
     w.handles.clear()
@@ -1274,3 +1288,6 @@ def x_failing(w, s, st, info):
 
 from . import w2_props  # noqa: E402,F401  (registers the property operations)
 from . import w2_validate  # noqa: E402,F401
+from . import w2_authz  # noqa: E402,F401
+from . import w2_diff  # noqa: E402,F401
+from . import w2_rt  # noqa: E402,F401
